@@ -425,7 +425,82 @@ def emit_forms8(w, src, must):
     w("")
 
 
-SECTIONS = [("codes", emit_codes), ("timers", emit_timers), ("guards", emit_guards), ("stun", emit_stun), ("sdp", emit_sdp), ("sip", emit_sip), ("auth", emit_auth), ("ua", emit_ua), ("tsxforms", emit_tsxforms), ("streamforms", emit_streamforms), ("cancelforms", emit_cancelforms), ("stunforms", emit_stunforms), ("uaforms", emit_uaforms), ("forms8", emit_forms8)]
+def emit_forms9(w, src, must):
+    """further decision points (Model/Forms9.v)"""
+    si = src("crates/sip-core/src/transaction/server_inv.rs")
+    b = _fn_body(si, r"pub async fn retransmit\b")
+    neg = bool(re.search(r"reliable\(\)", b))
+    pos = bool(re.search(r"send_(outgoing_)?response\(", b)) and not neg
+    w("(* Accepted::retransmit hands the 2xx to the transport whatever kind of transport it is *)")
+    flag(w, "accepted_retransmit_any_transport", pos, neg, "what Accepted::retransmit does on a reliable transport")
+
+    ini = src("crates/sip-ua/src/invite/initiator.rs")
+    b = _fn_body(ini, r"async fn terminate_early_dialogs\b")
+    pos = bool(re.search(r"early_list\s*\.\s*drain\(\s*\.\.\s*\)|mem::take\(&mut self\.early_list\)|for\s+[^\n]*\bin\s+(&(mut )?)?self\.early_list\b", b))
+    neg = bool(re.search(r"early_list\s*\.\s*(swap_)?remove\(\s*\w+\s*\)", b)) and bool(re.search(r"\w+\s*\+=\s*1", b))
+    w("(* Initiator::terminate_early_dialogs drains its list: every early dialog is told *)")
+    flag(w, "early_dialogs_drained", pos and not neg, neg, "how Initiator::terminate_early_dialogs walks its list")
+
+    st = src("crates/sip-core/src/transport/streaming/mod.rs")
+    b = _fn_body(st, r"async fn task_accept\b")
+    acc = re.search(r"\.accept\(\)\s*\.await", b)
+    lp = b.find("loop {")
+    helpers = [m.group(1) for m in re.finditer(r"fn\s+(\w+)\s*\(", st) if m.group(1) != "task_accept" and re.search(r"\bsleep\(", _fn_body(st, r"fn\s+%s\s*\(" % m.group(1)))
+               and m.group(1) not in ("receive_task", "next_step", "create")]
+    sl = [m.start() for m in re.finditer(r"\bsleep\(|ReceiveTaskState::unused\(" + "".join("|\\b%s\\(" % h for h in helpers), b)]
+    neg = bool(acc and lp >= 0 and any(lp < x < acc.start() for x in sl))
+    pos = bool(acc and sl and all(x > acc.start() for x in sl))
+    w("(* task_accept creates the 32 s idle timer of an accepted connection after accept() has returned *)")
+    flag(w, "idle_timer_armed_at_accept", pos and not neg, neg, "where task_accept creates the idle timer of an accepted connection")
+
+    ig = src("crates/stun-types/src/attributes/integrity.rs")
+    b = _fn_body(ig, r"fn message_integrity_decode\b") or ig
+    neg = bool(re.search(r"\.zip\(", b))
+    pos = bool(re.search(r"result\s*\.\s*as_slice\(\)\s*!=\s*value|\w+\s*\.\s*as_slice\(\)\s*(!=|==)\s*\w+|verify_slice\(", b)) and not neg
+    w("(* message_integrity_decode compares the whole value with the digest (slice inequality: lengths included) *)")
+    flag(w, "integrity_compares_whole_value", pos, neg, "how message_integrity_decode compares digest and value")
+
+    dc = src("crates/sip-core/src/transport/streaming/decode.rs")
+    names = set(re.findall(r"let\s+(\w+)\s*=\s*parser\s*\.\s*head_end\(\)\s*;", dc)) | {"head_end"}
+    alt = "|".join(sorted(re.escape(n) for n in names))
+    pos = bool(re.search(r"if\s+(parser\s*\.\s*head_end\(\)|%s)\s*>\s*[\w:]+\s*\{\s*return\s+Err\(Error::MessageTooLarge" % alt, dc))
+    neg = bool(re.search(r"head_end\(\)\s*\+\s*1|if\s+(parser\s*\.\s*head_end\(\)|%s)\s*>=\s*[\w:]+\s*\{\s*return\s+Err\(Error::MessageTooLarge" % alt, dc))
+    w("(* StreamingDecoder::decode refuses a complete head only when it is LONGER than the limit *)")
+    flag(w, "head_limit_inclusive", pos and not neg, neg, "the size check of a complete head in StreamingDecoder::decode")
+
+    sd = src("crates/sdp-types/src/lib.rs")
+    b = _fn_body(sd, r"fn not_whitespace\b")
+    pos = "is_ascii_whitespace()" in b
+    neg = bool(re.search(r"\bis_whitespace\(\)", b))
+    w("(* sdp-types: the token predicate ends a token at ASCII white space only *)")
+    flag(w, "sdp_ws_is_ascii", pos and not neg, neg, "the white-space predicate of sdp-types")
+
+    ci = src("crates/sip-core/src/transaction/client_inv.rs")
+    if os.path.exists(os.path.join(translate_repo(), "crates/sip-core/src/transaction/ack.rs")):
+        ci += src("crates/sip-core/src/transaction/ack.rs")
+    b = _fn_body(ci, r"fn create_ack\b") + _fn_body(ci, r"fn ack_headers\b")
+    pos = bool(re.search(r"clone_into\(\s*&mut\s+\w+\s*,\s*Name::VIA\s*\)", b))
+    neg = bool(re.search(r"create_via\(", b))
+    w("(* create_ack copies the Via of the INVITE (it does not make one afresh from the transport) *)")
+    flag(w, "ack_via_cloned", pos and not neg, neg, "where create_ack takes the Via from")
+
+    pk = src("crates/sip-ua/src/invite/prack.rs")
+    b = _fn_body(pk, r"async fn handle_prack\b")
+    neg = bool(re.search(r"Ok\(\(\)\)\s*=>\s*\w+\s*\.\s*respond\(|is_ok\(\)\s*\{[^}]*\.respond\(", b))
+    pos = bool(re.search(r"\}\s*\n\s*\w+\s*\.\s*respond\(\s*\w+\s*\)\s*\.await\s*\n\s*\}", b)) and not neg
+    w("(* InviteUsage::handle_prack answers a PRACK it has taken whether or not the acceptor still waits for it *)")
+    flag(w, "prack_answered_unconditionally", pos, neg, "whether handle_prack answers a PRACK whose receiver is gone")
+
+    ss = src("crates/sip-ua/src/invite/session.rs")
+    b = _fn_body(ss, r"pub async fn process_default\b")
+    pos = bool(re.search(r"let\s+mut\s+\w*ack\w*\s*(:\s*[^=]+)?=\s*None\s*;", b))
+    neg = bool(re.search(r"self\s*\.\s*(session\s*\.\s*)?\w*ack\w*\s*(\.\s*insert\(|=\s*Some\()|&mut\s+self\s*\.\s*session\s*\.\s*\w*ack\w*", b))
+    w("(* RefreshNeeded::process_default keeps the ACK of a refresh in a local of that call *)")
+    flag(w, "refresh_ack_per_round", pos and not neg, neg, "where RefreshNeeded::process_default keeps the ACK of a refresh")
+    w("")
+
+
+SECTIONS = [("codes", emit_codes), ("timers", emit_timers), ("guards", emit_guards), ("stun", emit_stun), ("sdp", emit_sdp), ("sip", emit_sip), ("auth", emit_auth), ("ua", emit_ua), ("tsxforms", emit_tsxforms), ("streamforms", emit_streamforms), ("cancelforms", emit_cancelforms), ("stunforms", emit_stunforms), ("uaforms", emit_uaforms), ("forms8", emit_forms8), ("forms9", emit_forms9)]
 
 # which properties' models read which section of Gen/Tables.v
 SECTION_USERS = {
@@ -443,5 +518,6 @@ SECTION_USERS = {
     "cancelforms": ["C12"],
     "stunforms": ["C20", "C16"],
     "uaforms": ["C12", "C06", "C07"],
+    "forms9": ["C03", "C07", "C08", "C11", "C12", "C13", "C15", "C19", "C20"],
     "forms8": ["C02", "C04", "C06", "C09", "C10", "C12", "C13", "C14", "C16", "C20"],
 }
